@@ -680,3 +680,170 @@ TWINS += [
     {"name": "charset-handler-catches-more", "edits": [(A, "            except LookupError:\n                return name.lower()\n", "            except (LookupError, TypeError):\n                return name.lower()\n")]},
     {"name": "charset-unknown-label-lowered-before-the-try", "edits": [(A, _R4_NORMALIZE, "            lowered = name.lower()\n            try:\n                return codecs.lookup(lowered).name\n            except LookupError:\n                return lowered\n")]},
 ]
+
+# ---- round 5 (stress round): fresh maintainer-style refactorings that the rules added in the detection rounds first tripped on
+# (contextlib.suppress around the codec lookup, static / class methods as helpers, starred unpacking, NamedTuple records,
+# operator.itemgetter keys, map() over both labels), each with mutants that break the property in that very shape ----
+_S5 = {
+    'charset-normaliser-under-contextlib-suppress': [
+        (A, 'import codecs\n', 'import codecs\nimport contextlib\n'),
+        (A, '        def _normalize(name: str) -> str:\n            try:\n                return codecs.lookup(name).name\n            except LookupError:\n                return name.lower()\n\n        return item == "*" or _normalize(value) == _normalize(item)\n', '        def _normalize(name: str) -> str:\n            with contextlib.suppress(LookupError):\n                return codecs.lookup(name).name\n\n            return name.lower()\n\n        if item == "*":\n            return True\n\n        offered = _normalize(value)\n        accepted = _normalize(item)\n        return offered == accepted\n'),
+    ],
+    'charset-suppress-block-overrides-the-lowered-default': [
+        (A, 'import codecs\n', 'import codecs\nfrom contextlib import suppress\n'),
+        (A, '        def _normalize(name: str) -> str:\n            try:\n                return codecs.lookup(name).name\n            except LookupError:\n                return name.lower()\n\n        return item == "*" or _normalize(value) == _normalize(item)\n', '        def _normalize(name: str) -> str:\n            normalized = name.lower()\n\n            with suppress(LookupError):\n                normalized = codecs.lookup(name).name\n\n            return normalized\n\n        return item == "*" or _normalize(value) == _normalize(item)\n'),
+    ],
+    'charset-static-normaliser-lowers-first-then-looks-up': [
+        (A, '    def _value_matches(self, value: str, item: str) -> bool:\n        def _normalize(name: str) -> str:\n            try:\n                return codecs.lookup(name).name\n            except LookupError:\n                return name.lower()\n\n        return item == "*" or _normalize(value) == _normalize(item)\n', '    @staticmethod\n    def _canonical_name(name: str) -> str:\n        canonical = name.lower()\n\n        try:\n            canonical = codecs.lookup(name).name\n        except LookupError:\n            pass\n\n        return canonical\n\n    def _value_matches(self, value: str, item: str) -> bool:\n        return item == "*" or self._canonical_name(value) == self._canonical_name(\n            item\n        )\n'),
+    ],
+    'charset-static-normaliser-called-through-the-class-name': [
+        (A, '    def _value_matches(self, value: str, item: str) -> bool:\n        def _normalize(name: str) -> str:\n            try:\n                return codecs.lookup(name).name\n            except LookupError:\n                return name.lower()\n\n        return item == "*" or _normalize(value) == _normalize(item)\n', '    @staticmethod\n    def _codec_name(label: str) -> str:\n        try:\n            return codecs.lookup(label).name\n        except LookupError:\n            return label.lower()\n\n    def _value_matches(self, value: str, item: str) -> bool:\n        if item == "*":\n            return True\n\n        return CharsetAccept._codec_name(value) == CharsetAccept._codec_name(item)\n'),
+    ],
+    'charset-classmethod-normaliser': [
+        (A, '    def _value_matches(self, value: str, item: str) -> bool:\n        def _normalize(name: str) -> str:\n            try:\n                return codecs.lookup(name).name\n            except LookupError:\n                return name.lower()\n\n        return item == "*" or _normalize(value) == _normalize(item)\n', '    @classmethod\n    def _normalize(cls, name: str) -> str:\n        try:\n            return codecs.lookup(name).name\n        except LookupError:\n            return name.lower()\n\n    def _value_matches(self, value: str, item: str) -> bool:\n        return item == "*" or self._normalize(value) == self._normalize(item)\n'),
+    ],
+    'charset-both-labels-normalised-by-one-map': [
+        (A, '        def _normalize(name: str) -> str:\n            try:\n                return codecs.lookup(name).name\n            except LookupError:\n                return name.lower()\n\n        return item == "*" or _normalize(value) == _normalize(item)\n', '        def _normalize(name: str) -> str:\n            try:\n                return codecs.lookup(name).name\n            except LookupError:\n                return name.lower()\n\n        if item == "*":\n            return True\n\n        offered, accepted = map(_normalize, (value, item))\n        return offered == accepted\n'),
+    ],
+    'charset-handler-passes-and-falls-to-the-lowered-label': [
+        (A, '        def _normalize(name: str) -> str:\n            try:\n                return codecs.lookup(name).name\n            except LookupError:\n                return name.lower()\n\n        return item == "*" or _normalize(value) == _normalize(item)\n', '        def _normalize(name: str) -> str:\n            try:\n                info = codecs.lookup(name)\n            except LookupError:\n                pass\n            else:\n                return info.name\n            return name.lower()\n\n        if item == "*":\n            return True\n        return _normalize(value) == _normalize(item)\n'),
+    ],
+    'best-match-ranking-in-a-static-predicate': [
+        (A, '    @t.overload\n    def best_match(self, matches: cabc.Iterable[str]) -> str | None: ...\n    @t.overload\n    def best_match(self, matches: cabc.Iterable[str], default: str = ...) -> str: ...\n    def best_match(\n        self, matches: cabc.Iterable[str], default: str | None = None\n    ) -> str | None:\n        """Returns the best match from a list of possible matches based\n', '    @staticmethod\n    def _is_better(\n        quality: float,\n        specificity: tuple[float, ...],\n        best_quality: float,\n        best_specificity: tuple[float, ...],\n    ) -> bool:\n        """Better quality, or same quality but more specific. Quality 0 never wins."""\n        if quality <= 0:\n            return False\n\n        if quality != best_quality:\n            return quality > best_quality\n\n        return specificity > best_specificity\n\n    @t.overload\n    def best_match(self, matches: cabc.Iterable[str]) -> str | None: ...\n    @t.overload\n    def best_match(self, matches: cabc.Iterable[str], default: str = ...) -> str: ...\n    def best_match(\n        self, matches: cabc.Iterable[str], default: str | None = None\n    ) -> str | None:\n        """Returns the best match from a list of possible matches based\n'),
+        (A, '        result = default\n        best_quality: float = -1\n        best_specificity: tuple[float, ...] = (-1,)\n        for server_item in matches:\n            match = self._best_single_match(server_item)\n            if not match:\n                continue\n            client_item, quality = match\n            specificity = self._specificity(client_item)\n            if quality <= 0 or quality < best_quality:\n                continue\n            # better quality or same quality but more specific => better match\n            if quality > best_quality or specificity > best_specificity:\n                result = server_item\n                best_quality = quality\n                best_specificity = specificity\n        return result\n', '        result = default\n        best_quality: float = -1\n        best_specificity: tuple[float, ...] = (-1,)\n        for server_item in matches:\n            match = self._best_single_match(server_item)\n            if not match:\n                continue\n            client_item, quality = match\n            specificity = self._specificity(client_item)\n            if self._is_better(quality, specificity, best_quality, best_specificity):\n                result = server_item\n                best_quality = quality\n                best_specificity = specificity\n        return result\n'),
+    ],
+    'best-match-rank-kept-in-a-namedtuple': [
+        (A, 'class Accept(ImmutableList[tuple[str, float]]):\n', 'class _Rank(t.NamedTuple):\n    quality: float\n    specificity: tuple[float, ...]\n\n\nclass Accept(ImmutableList[tuple[str, float]]):\n'),
+        (A, '        result = default\n        best_quality: float = -1\n        best_specificity: tuple[float, ...] = (-1,)\n        for server_item in matches:\n            match = self._best_single_match(server_item)\n            if not match:\n                continue\n            client_item, quality = match\n            specificity = self._specificity(client_item)\n            if quality <= 0 or quality < best_quality:\n                continue\n            # better quality or same quality but more specific => better match\n            if quality > best_quality or specificity > best_specificity:\n                result = server_item\n                best_quality = quality\n                best_specificity = specificity\n        return result\n', '        result = default\n        best = _Rank(-1, (-1,))\n        for server_item in matches:\n            match = self._best_single_match(server_item)\n            if not match:\n                continue\n            client_item, quality = match\n            rank = _Rank(quality, self._specificity(client_item))\n            if rank.quality <= 0 or rank.quality < best.quality:\n                continue\n            # better quality or same quality but more specific => better match\n            if rank.quality > best.quality or rank.specificity > best.specificity:\n                result = server_item\n                best = rank\n        return result\n'),
+    ],
+    'best-match-max-keyed-by-itemgetter': [
+        (A, 'import codecs\n', 'import codecs\nimport operator\n'),
+        (A, '        result = default\n        best_quality: float = -1\n        best_specificity: tuple[float, ...] = (-1,)\n        for server_item in matches:\n            match = self._best_single_match(server_item)\n            if not match:\n                continue\n            client_item, quality = match\n            specificity = self._specificity(client_item)\n            if quality <= 0 or quality < best_quality:\n                continue\n            # better quality or same quality but more specific => better match\n            if quality > best_quality or specificity > best_specificity:\n                result = server_item\n                best_quality = quality\n                best_specificity = specificity\n        return result\n', '        acceptable = []\n        for server_item in matches:\n            match = self._best_single_match(server_item)\n            if not match:\n                continue\n            client_item, quality = match\n            if quality > 0:\n                acceptable.append((quality, self._specificity(client_item), server_item))\n        if acceptable:\n            # the first of equally ranked offers wins\n            return max(acceptable, key=operator.itemgetter(0, 1))[2]\n        return default\n'),
+    ],
+    'mime-parts-split-by-a-helper-with-starred-unpacking': [
+        (A, 'class MIMEAccept(Accept):\n', 'def _split_mime(value: str) -> tuple[str, str, list[str]]:\n    """Type, subtype and sorted parameters of a media type or range."""\n    type_, subtype, *params = _normalize_mime(value)\n    return type_, subtype, sorted(params)\n\n\nclass MIMEAccept(Accept):\n'),
+        (A, '        normalized_value = _normalize_mime(value)\n        value_type, value_subtype = normalized_value[:2]\n        value_params = sorted(normalized_value[2:])\n', '        value_type, value_subtype, value_params = _split_mime(value)\n'),
+        (A, '        normalized_item = _normalize_mime(item)\n        item_type, item_subtype = normalized_item[:2]\n        item_params = sorted(normalized_item[2:])\n', '        item_type, item_subtype, item_params = _split_mime(item)\n'),
+    ],
+    'wildcard-hoisted-into-a-module-constant': [
+        (A, 'class Accept(ImmutableList[tuple[str, float]]):\n', '_WILDCARD = "*"\n\n\nclass Accept(ImmutableList[tuple[str, float]]):\n'),
+        (A, '        """Returns a tuple describing the value\'s specificity."""\n        return (value != "*",)\n', '        """Returns a tuple describing the value\'s specificity."""\n        return (value != _WILDCARD,)\n'),
+        (A, '        """Check if a value matches a given accept item."""\n        return item == "*" or item.lower() == value.lower()\n', '        """Check if a value matches a given accept item."""\n        if item == _WILDCARD:\n            return True\n\n        return value.lower() == item.lower()\n'),
+        (A, '        return tuple(x != "*" for x in _mime_split_re.split(value))\n', '        return tuple(part != _WILDCARD for part in _mime_split_re.split(value))\n'),
+    ],
+    'specificity-overridden-with-the-same-ranking-in-subclasses': [
+        (A, '    """Like :class:`Accept` but with normalization for language tags."""\n', '    """Like :class:`Accept` but with normalization for language tags."""\n\n    def _specificity(self, value: str) -> tuple[bool, ...]:\n        if value == "*":\n            return (False,)\n\n        return (True,)\n'),
+        (A, '    """Like :class:`Accept` but with normalization for charsets."""\n', '    """Like :class:`Accept` but with normalization for charsets."""\n\n    def _specificity(self, value: str) -> tuple[bool, ...]:\n        is_wildcard = value == "*"\n        return (not is_wildcard,)\n'),
+    ],
+    'init-two-stable-sort-passes-minor-key-first': [
+        (A, '        if values is None:\n            super().__init__()\n            self.provided = False\n        elif isinstance(values, Accept):\n            self.provided = values.provided\n            super().__init__(values)\n        else:\n            self.provided = True\n            values = sorted(\n                values, key=lambda x: (self._specificity(x[0]), x[1]), reverse=True\n            )\n            super().__init__(values)\n', '        if values is None:\n            super().__init__()\n            self.provided = False\n        elif isinstance(values, Accept):\n            self.provided = values.provided\n            super().__init__(values)\n        else:\n            self.provided = True\n            # stable: order by quality first, then by specificity\n            by_quality = sorted(values, key=lambda x: x[1], reverse=True)\n            by_quality.sort(key=lambda x: self._specificity(x[0]), reverse=True)\n            super().__init__(by_quality)\n'),
+    ],
+    'best-match-top-rank-then-first-offer-holding-it': [
+        (A, '        result = default\n        best_quality: float = -1\n        best_specificity: tuple[float, ...] = (-1,)\n        for server_item in matches:\n            match = self._best_single_match(server_item)\n            if not match:\n                continue\n            client_item, quality = match\n            specificity = self._specificity(client_item)\n            if quality <= 0 or quality < best_quality:\n                continue\n            # better quality or same quality but more specific => better match\n            if quality > best_quality or specificity > best_specificity:\n                result = server_item\n                best_quality = quality\n                best_specificity = specificity\n        return result\n', '        ranked = []\n        for server_item in matches:\n            match = self._best_single_match(server_item)\n            if match and match[1] > 0:\n                ranked.append((server_item, (match[1], self._specificity(match[0]))))\n        if not ranked:\n            return default\n        top = max(rank for _, rank in ranked)\n        return next(server_item for server_item, rank in ranked if rank == top)\n'),
+    ],
+}
+
+
+def _s5(name: str, *repl: tuple[str, str]) -> list:
+    """the edits of round-5 twin ``name`` with text replacements applied to the new side (each must occur)."""
+    out = []
+    hit = [False] * len(repl)
+    for f, old, new in _S5[name]:
+        for i, (a, b) in enumerate(repl):
+            if a in new:
+                new = new.replace(a, b)
+                hit[i] = True
+        out.append((f, old, new))
+    assert all(hit), (name, repl)
+    return out
+
+
+TWINS += [{"name": name, "edits": edits} for name, edits in _S5.items()]
+MUTANTS += [
+    {"name": "suppress-fallback-keeps-the-case-of-unknown-labels", "expect": "R17.4", "edits": _s5("charset-normaliser-under-contextlib-suppress", ("            return name.lower()\n", "            return name\n"))},
+    {"name": "suppress-names-an-exception-the-lookup-does-not-raise", "expect": "R17.4", "edits": _s5("charset-normaliser-under-contextlib-suppress", ("contextlib.suppress(LookupError)", "contextlib.suppress(KeyError)"))},
+    {"name": "suppress-block-default-is-the-label-verbatim", "expect": "R17.4", "edits": _s5("charset-suppress-block-overrides-the-lowered-default", ("            normalized = name.lower()\n", "            normalized = name\n"))},
+    {"name": "suppress-block-keeps-the-label-of-a-known-codec", "expect": "R17.4", "edits": _s5("charset-suppress-block-overrides-the-lowered-default", ("normalized = codecs.lookup(name).name\n", "codecs.lookup(name)\n"))},
+    {"name": "static-normaliser-default-not-lowered", "expect": "R17.4", "edits": _s5("charset-static-normaliser-lowers-first-then-looks-up", ("        canonical = name.lower()\n", "        canonical = name\n"))},
+    {"name": "static-normaliser-through-class-keeps-case-in-the-handler", "expect": "R17.4", "edits": _s5("charset-static-normaliser-called-through-the-class-name", ("            return label.lower()\n", "            return label\n"))},
+    {"name": "static-normaliser-applied-to-the-offer-only", "expect": "R17.4", "edits": _s5("charset-static-normaliser-called-through-the-class-name", ("== CharsetAccept._codec_name(item)", "== item.lower()"))},
+    {"name": "classmethod-normaliser-keeps-case-in-the-handler", "expect": "R17.4", "edits": _s5("charset-classmethod-normaliser", ("            return name.lower()\n", "            return name\n"))},
+    {"name": "map-normalises-with-lower-instead-of-the-registry", "expect": "R17.4", "edits": _s5("charset-both-labels-normalised-by-one-map", ("map(_normalize, (value, item))", "map(str.lower, (value, item))"))},
+    {"name": "handler-passes-then-label-returned-verbatim", "expect": "R17.4", "edits": _s5("charset-handler-passes-and-falls-to-the-lowered-label", ("            return name.lower()\n", "            return name\n"))},
+    {"name": "static-predicate-lets-quality-zero-win", "expect": "R17.2", "edits": _s5("best-match-ranking-in-a-static-predicate", ("        if quality <= 0:\n            return False\n", "        if quality < 0:\n            return False\n"))},
+    {"name": "static-predicate-tie-replaces-the-earlier-offer", "expect": "R17.2", "edits": _s5("best-match-ranking-in-a-static-predicate", ("        return specificity > best_specificity\n", "        return specificity >= best_specificity\n"))},
+    {"name": "static-predicate-ignores-specificity", "expect": "R17.2", "edits": _s5("best-match-ranking-in-a-static-predicate", ("        return specificity > best_specificity\n", "        return False\n"))},
+    {"name": "namedtuple-rank-tie-replaces-the-earlier-offer", "expect": "R17.2", "edits": _s5("best-match-rank-kept-in-a-namedtuple", ("rank.specificity > best.specificity", "rank.specificity >= best.specificity"))},
+    {"name": "namedtuple-rank-lets-quality-zero-win", "expect": "R17.2", "edits": _s5("best-match-rank-kept-in-a-namedtuple", ("if rank.quality <= 0 or rank.quality < best.quality:", "if rank.quality < 0 or rank.quality < best.quality:"))},
+    {"name": "namedtuple-rank-remembers-only-the-quality", "expect": "R17.2", "edits": _s5("best-match-rank-kept-in-a-namedtuple", ("                best = rank\n", "                best = _Rank(rank.quality, best.specificity)\n"))},
+    {"name": "itemgetter-key-specificity-major", "expect": "R17.2", "edits": _s5("best-match-max-keyed-by-itemgetter", ("operator.itemgetter(0, 1)", "operator.itemgetter(1, 0)"))},
+    {"name": "itemgetter-key-quality-only-then-offer-text", "expect": "R17.2", "edits": _s5("best-match-max-keyed-by-itemgetter", ("operator.itemgetter(0, 1)", "operator.itemgetter(0, 2)"))},
+    {"name": "itemgetter-max-admits-quality-zero", "expect": "R17.2", "edits": _s5("best-match-max-keyed-by-itemgetter", ("            if quality > 0:\n", "            if quality >= 0:\n"))},
+    {"name": "mime-split-helper-loses-case-folding", "expect": "R17.4", "edits": _s5("mime-parts-split-by-a-helper-with-starred-unpacking", ("type_, subtype, *params = _normalize_mime(value)", "type_, subtype, *params = _mime_split_re.split(value)"))},
+    {"name": "mime-split-helper-swaps-type-and-subtype", "expect": "R17.4", "edits": _s5("mime-parts-split-by-a-helper-with-starred-unpacking", ("    return type_, subtype, sorted(params)\n", "    return subtype, type_, sorted(params)\n"))},
+    {"name": "mime-split-helper-drops-the-parameters", "expect": "R17.4", "edits": _s5("mime-parts-split-by-a-helper-with-starred-unpacking", ("    type_, subtype, *params = _normalize_mime(value)\n    return type_, subtype, sorted(params)\n", "    type_, subtype, *_params = _normalize_mime(value)\n    return type_, subtype, []\n"))},
+    {"name": "wildcard-constant-spelled-differently", "expect": "R17.4", "edits": _s5("wildcard-hoisted-into-a-module-constant", ('_WILDCARD = "*"\n', '_WILDCARD = "*/*"\n'))},
+    {"name": "subclass-specificity-override-ranks-wildcard-first", "expect": "R17.3", "edits": _s5("specificity-overridden-with-the-same-ranking-in-subclasses", ('        if value == "*":\n            return (False,)\n\n        return (True,)\n', '        if value == "*":\n            return (True,)\n\n        return (False,)\n'))},
+    {"name": "subclass-specificity-override-ties-everything", "expect": "R17.3", "edits": _s5("specificity-overridden-with-the-same-ranking-in-subclasses", ("        return (not is_wildcard,)\n", "        return (is_wildcard or True,)\n"))},
+    {"name": "two-pass-sort-major-key-first", "expect": "R17.3", "edits": _s5("init-two-stable-sort-passes-minor-key-first", ("by_quality = sorted(values, key=lambda x: x[1], reverse=True)\n            by_quality.sort(key=lambda x: self._specificity(x[0]), reverse=True)\n", "by_quality = sorted(values, key=lambda x: self._specificity(x[0]), reverse=True)\n            by_quality.sort(key=lambda x: x[1], reverse=True)\n"))},
+    {"name": "second-scan-returns-the-last-offer-of-the-top-rank", "expect": "R17.2", "edits": _s5("best-match-top-rank-then-first-offer-holding-it", ("return next(server_item for server_item, rank in ranked if rank == top)", "return [server_item for server_item, rank in ranked if rank == top][-1]"))},
+]
+
+# method / helper aliases held in local names, EAFP unpacking of the match, codec lookup folded into None
+_S5B = {
+    'charset-static-normaliser-aliased-from-type-self': [
+        (A, '    def _value_matches(self, value: str, item: str) -> bool:\n        def _normalize(name: str) -> str:\n            try:\n                return codecs.lookup(name).name\n            except LookupError:\n                return name.lower()\n\n        return item == "*" or _normalize(value) == _normalize(item)\n', '    @staticmethod\n    def _normalize(name: str) -> str:\n        try:\n            return codecs.lookup(name).name\n        except LookupError:\n            return name.lower()\n\n    def _value_matches(self, value: str, item: str) -> bool:\n        normalize = type(self)._normalize\n        return item == "*" or normalize(value) == normalize(item)\n'),
+    ],
+    'mime-specificity-predicate-aliased-from-the-class': [
+        (A, '    def _specificity(self, value: str) -> tuple[bool, ...]:\n        return tuple(x != "*" for x in _mime_split_re.split(value))\n', '    @staticmethod\n    def _is_concrete(part: str) -> bool:\n        return part != "*"\n\n    def _specificity(self, value: str) -> tuple[bool, ...]:\n        is_concrete = self.__class__._is_concrete\n        return tuple(is_concrete(x) for x in _mime_split_re.split(value))\n'),
+    ],
+    'best-match-unpacks-the-match-under-try': [
+        (A, '        result = default\n        best_quality: float = -1\n        best_specificity: tuple[float, ...] = (-1,)\n        for server_item in matches:\n            match = self._best_single_match(server_item)\n            if not match:\n                continue\n            client_item, quality = match\n            specificity = self._specificity(client_item)\n            if quality <= 0 or quality < best_quality:\n                continue\n            # better quality or same quality but more specific => better match\n            if quality > best_quality or specificity > best_specificity:\n                result = server_item\n                best_quality = quality\n                best_specificity = specificity\n        return result\n', '        result = default\n        best_quality: float = -1\n        best_specificity: tuple[float, ...] = (-1,)\n        for server_item in matches:\n            try:\n                client_item, quality = self._best_single_match(server_item)  # type: ignore[misc]\n            except TypeError:\n                # no client item matches\n                continue\n            specificity = self._specificity(client_item)\n            if quality <= 0 or quality < best_quality:\n                continue\n            # better quality or same quality but more specific => better match\n            if quality > best_quality or specificity > best_specificity:\n                result = server_item\n                best_quality = quality\n                best_specificity = specificity\n        return result\n'),
+    ],
+    'init-sort-key-through-an-alias-of-the-specificity-method': [
+        (A, '        if values is None:\n            super().__init__()\n            self.provided = False\n        elif isinstance(values, Accept):\n            self.provided = values.provided\n            super().__init__(values)\n        else:\n            self.provided = True\n            values = sorted(\n                values, key=lambda x: (self._specificity(x[0]), x[1]), reverse=True\n            )\n            super().__init__(values)\n', '        if values is None:\n            super().__init__()\n            self.provided = False\n        elif isinstance(values, Accept):\n            self.provided = values.provided\n            super().__init__(values)\n        else:\n            self.provided = True\n            specificity = self._specificity\n            values = sorted(\n                values, key=lambda pair: (specificity(pair[0]), pair[1]), reverse=True\n            )\n            super().__init__(values)\n'),
+    ],
+    'charset-codec-found-or-none-by-a-module-helper': [
+        (A, 'class CharsetAccept(Accept):\n', 'def _find_codec(name: str) -> codecs.CodecInfo | None:\n    try:\n        return codecs.lookup(name)\n    except LookupError:\n        return None\n\n\nclass CharsetAccept(Accept):\n'),
+        (A, '        def _normalize(name: str) -> str:\n            try:\n                return codecs.lookup(name).name\n            except LookupError:\n                return name.lower()\n\n        return item == "*" or _normalize(value) == _normalize(item)\n', '        def _normalize(name: str) -> str:\n            if (codec := _find_codec(name)) is not None:\n                return codec.name\n\n            return name.lower()\n\n        return item == "*" or _normalize(value) == _normalize(item)\n'),
+    ],
+    'charset-known-flag-set-in-the-handler': [
+        (A, '        def _normalize(name: str) -> str:\n            try:\n                return codecs.lookup(name).name\n            except LookupError:\n                return name.lower()\n\n        return item == "*" or _normalize(value) == _normalize(item)\n', '        def _normalize(name: str) -> str:\n            known = True\n\n            try:\n                info = codecs.lookup(name)\n            except LookupError:\n                known = False\n\n            return info.name if known else name.lower()\n\n        return item == "*" or _normalize(value) == _normalize(item)\n'),
+    ],
+}
+
+_S5.update(_S5B)
+TWINS += [{"name": name, "edits": edits} for name, edits in _S5B.items()]
+MUTANTS += [
+    {"name": "aliased-static-normaliser-keeps-case-in-the-handler", "expect": "R17.4", "edits": _s5("charset-static-normaliser-aliased-from-type-self", ("            return name.lower()\n", "            return name\n"))},
+    {"name": "aliased-static-normaliser-applied-to-one-side", "expect": "R17.4", "edits": _s5("charset-static-normaliser-aliased-from-type-self", ("normalize(value) == normalize(item)", "normalize(value) == item.lower()"))},
+    {"name": "aliased-mime-predicate-inverted", "expect": "R17.3", "edits": _s5("mime-specificity-predicate-aliased-from-the-class", ('        return part != "*"\n', '        return part == "*"\n'))},
+    {"name": "try-unpack-lets-quality-zero-win", "expect": "R17.2", "edits": _s5("best-match-unpacks-the-match-under-try", ("            if quality <= 0 or quality < best_quality:\n", "            if quality < 0 or quality < best_quality:\n"))},
+    {"name": "try-unpack-no-match-ends-the-scan", "expect": "R17.2", "edits": _s5("best-match-unpacks-the-match-under-try", ("                # no client item matches\n                continue\n", "                # no client item matches\n                break\n"))},
+    {"name": "aliased-sort-key-quality-major", "expect": "R17.3", "edits": _s5("init-sort-key-through-an-alias-of-the-specificity-method", ("(specificity(pair[0]), pair[1])", "(pair[1], specificity(pair[0]))"))},
+    {"name": "codec-or-none-helper-unknown-label-verbatim", "expect": "R17.4", "edits": _s5("charset-codec-found-or-none-by-a-module-helper", ("            return name.lower()\n", "            return name\n"))},
+    {"name": "codec-or-none-helper-catches-the-wrong-exception", "expect": "R17.4", "edits": _s5("charset-codec-found-or-none-by-a-module-helper", ("    except LookupError:\n        return None\n", "    except KeyError:\n        return None\n"))},
+    {"name": "known-flag-unknown-label-verbatim", "expect": "R17.4", "edits": _s5("charset-known-flag-set-in-the-handler", ("return info.name if known else name.lower()", "return info.name if known else name"))},
+    {"name": "known-flag-arms-swapped-on-a-lowered-label", "expect": "R17.4", "edits": _s5("charset-known-flag-set-in-the-handler", ("return info.name if known else name.lower()", "return name if known else name.lower()"))},
+]
+
+# star-unpacking of the normalised media type (seed C17-F's shape): the parameter lists must still be compared as sets
+_MIME_SPLIT_V = "        normalized_value = _normalize_mime(value)\n        value_type, value_subtype = normalized_value[:2]\n        value_params = sorted(normalized_value[2:])\n"
+_MIME_SPLIT_I = "        normalized_item = _normalize_mime(item)\n        item_type, item_subtype = normalized_item[:2]\n        item_params = sorted(normalized_item[2:])\n"
+TWINS += [
+    {"name": "mime-star-unpacking-parameters-sorted-in-place", "edits": [
+        (A, _MIME_SPLIT_V, "        value_type, value_subtype, *value_params = _normalize_mime(value)\n        value_params.sort()\n"),
+        (A, _MIME_SPLIT_I, "        item_type, item_subtype, *item_params = _normalize_mime(item)\n        item_params.sort()\n")]},
+    {"name": "mime-star-unpacking-parameters-compared-as-sets", "edits": [
+        (A, _MIME_SPLIT_V, "        value_type, value_subtype, *value_rest = _normalize_mime(value)\n        value_params = sorted(value_rest)\n"),
+        (A, _MIME_SPLIT_I, "        item_type, item_subtype, *item_rest = _normalize_mime(item)\n        item_params = sorted(item_rest)\n")]},
+]
+MUTANTS += [
+    {"name": "mime-star-unpacking-loses-the-sort", "expect": "R17.4", "edits": [
+        (A, _MIME_SPLIT_V, "        value_type, value_subtype, *value_params = _normalize_mime(value)\n"),
+        (A, _MIME_SPLIT_I, "        item_type, item_subtype, *item_params = _normalize_mime(item)\n")]},
+    {"name": "mime-star-unpacking-sorts-one-side-only", "expect": "R17.4", "edits": [
+        (A, _MIME_SPLIT_V, "        value_type, value_subtype, *value_params = _normalize_mime(value)\n        value_params.sort()\n"),
+        (A, _MIME_SPLIT_I, "        item_type, item_subtype, *item_params = _normalize_mime(item)\n")]},
+    {"name": "mime-split-helper-returns-parameters-unsorted", "expect": "R17.4", "edits": _s5("mime-parts-split-by-a-helper-with-starred-unpacking", ("    return type_, subtype, sorted(params)\n", "    return type_, subtype, params\n"))},
+]
